@@ -35,6 +35,19 @@ function), built through the scalar operators, through the node constructors, an
 (VectorVariable, views, VectorExpression; element and .sum()), at points of every sign pattern, with a zero,
 a large and a tiny coordinate; a point is skipped only when the recipe value itself is nan / inf or passes
 through a non-finite / singular intermediate.
+
+Parameters INSIDE reductions × set histories (checklist 29, `parhist_section`): Parameters (scalar Parameters, VectorParameter
+elements, variable-free compounds of them, whole-vector operators on them) as ELEMENTS of VectorExpression / MatrixExpression
+operands under every reduction node (LinearCombination, VectorExpressionSum, vector_sum chain, DotProduct incl. v·v and p·x,
+L2Norm, L1Norm, QuadraticForm, MatrixSum, (A @ p).sum(); every spelling; sizes 1 … 33), the reduction bare and inside 31
+variable-free scalar wrappers, combined with variables in 19 ways (or left variable-free as a whole), under six families of
+compile / Parameter.set / VectorParameter.set / call histories on one expression object (LRU cache never cleared inside a
+history: cached re-compilation, compilation for another variable list after a set, set-before-compile-and-back, partial
+sets, sets to 0 / 1 / sign flips, int / float / np.float64 values, read-only queries in between), both builders; all four
+entry points + a callable compiled at call time are judged against the NumPy value of the recipe at the CURRENT parameter
+values (the harness's own bookkeeping).  The same shapes also run as ordinary expressions through the IR tie (`audit_cover`
+"parred:*").  A closure the decompiler cannot express (e.g. a captured non-finite number) is a recorded mismatch
+("unknown-closure"), never an exception of the harness.
 """
 from __future__ import annotations
 
@@ -75,6 +88,11 @@ THEOREMS = [
     "Optyx.Props.OperatorsTie.operators_spec",
     "Optyx.Props.OperatorsTie.comparisons_spec",
     "Optyx.Props.OperatorsTie.ensureExpr_text",
+    "Optyx.Props.EvalTie.evaluate_step",
+    "Optyx.Props.EvalTie.step_unique",
+    "Optyx.Props.EvalTie.source_equations_solvable",
+    "Optyx.Props.C01.evaluate_eq_denote_of_source_equations",
+    "Optyx.Props.C01.compile_eq_evaluate_of_source_equations",
     "Optyx.Props.PinsC01.anchors",
 ]
 ASSUMPTIONS = [
@@ -334,6 +352,13 @@ def py_compile(e, V, thr):
             return b + " " + clo_ir(fn), fn
         except UnknownClosure as ex:
             return f"{b} unknown-closure:{ex}", fn
+        except RecursionError:
+            return f"{b} unknown-closure:RecursionError in the decompiler", fn
+        except Exception as ex:  # noqa: BLE001
+            # a closure the decompiler cannot put into IR text (a captured value that is not a finite real number, not an
+            # index array, an object of an unexpected type, …) is an OUTPUT of the code under test that the model does not
+            # produce: a recorded correspondence mismatch, never an uncaught exception of the harness
+            return f"{b} unknown-closure:{type(ex).__name__}:{ex}", fn
     finally:
         C._RECURSION_THRESHOLD = old
         C._compile_cached.cache_clear()
@@ -612,6 +637,25 @@ def audit_cover(rng, thorough):
     out.append(("names:two-vectors-one-label", x12.dot(xb) - xb.sum(), PN))
     out.append(("names:same-name-params", p1 * x12[0] + p2 - p1 / (p2 * p2 + 1.0), PN))
     out.append(("names:same-name-params-vec", p1 * x12[0:3].dot(x12[3:6]) - p2 * x12.sum(), PN))
+    # (29) Parameters as ELEMENTS of vector / matrix expressions under every reduction node — bare, inside variable-free scalar
+    # operations, combined with variables — through the whole pipeline (IR tie for every V and threshold; run() sets every
+    # Parameter between compilation and call and judges at the values they have then)
+    from optyx import VectorParameter
+
+    prices = VectorParameter("price", n, [10.0, 20.0, 30.0][:n] + [5.0] * max(0, n - 3))
+    rate = Parameter("rate", 0.5)
+    PP = Pool(U.all_vars(), list(prices) + [rate])
+    pv = V.VectorExpression(list(prices))
+    pmix = V.VectorExpression([rate, Constant(2.0), prices[0]][:n] + [2.0 * prices[n - 1]] * max(0, n - 3))
+    wn = np.array([0.5, 0.3, 0.2][:n] + [0.25] * max(0, n - 3))
+    reds = {"lc": wn @ pv, "sum": pv.sum(), "l2": V.norm(pv), "l1": V.norm(pv, 1), "dotself": pv.dot(pv), "dot": pv.dot(pmix),
+            "qf": M.QuadraticForm(pv, Q), "msum": M.MatrixExpression([list(prices)[:n - 1] + [rate], [rate * 2.0] * n]).sum(),
+            "mvsum": M.MatrixVectorProduct(Q, pv).sum(), "dotvar": pv.dot(U.x), "vecop": (pv * 2.0 - pmix).sum()}
+    for rn, R in reds.items():
+        pforms = {"bare": R + a, "k*R": (a - 1.1 * R) ** 2 + b * rate, "sqrt": a * optyx.sqrt(R * R + 1.0) + b / (R * R + 1.0),
+                  "exp": optyx.exp(-(R / 100.0)) * a + b, "const-only": 1.5 * R - 2.0, "R*p": (R * rate) * a - b}
+        for wn_, e in pforms.items():
+            out.append((f"parred:{rn}:{wn_}", e, PP))
     # (9) one compound sub-expression OBJECT at several places
     t = optyx.sin(a) * b + 1.0
     d = U.x.dot(U.y)
@@ -787,7 +831,10 @@ def run(ctx) -> core.Report:
                            "every rewrite-bait template (nested powers, neutral elements, self-cancellation, signs, constant "
                            "folding, function pairs, log/exp/sqrt/abs laws) × {E = x, compound E} × {raw numbers, Constant "
                            "objects, node constructors, vector route} × 7 sign/zero/large/tiny points, judged against the "
-                           "NumPy value of the formula as written")
+                           "NumPy value of the formula as written; + Parameters as elements of vector / matrix expressions: "
+                           "every reduction node × every variable-free wrapper, every combination with variables × every "
+                           "compile / set / call history family, all entry points judged against NumPy at the current "
+                           "parameter values")
     exprs = list(cell_cover(rng)) + audit_cover(rng, thorough) + chains(rng, thorough) + zigzag_chains(rng, thorough)
     n_rand = 25000 if thorough else 2000
     depth_hi = 6 if thorough else 4
@@ -966,6 +1013,9 @@ def run(ctx) -> core.Report:
             nm = names.get(kind, kind)
             base = {"expr": c["s"], "vars": [v.name for v in c["V"]], "point": c["pt"],
                     "params": {p.name: v for p, v in c["newp"].items()}, "threshold": c["thr_num"], "observable": nm}
+            if c["newp"]:
+                # the history of this loop (replayed as such): every Parameter was 1.5 when the callables were compiled
+                base.update(set_history=True, params_when_compiled={p.name: 1.5 for p in c["newp"]})
             if val is None:
                 f = dict(base, what=f"{nm} raised {err} at a regular point", want=ref)
                 if err == "int_negative_power":
@@ -981,6 +1031,7 @@ def run(ctx) -> core.Report:
     magnitude_section(rep, rng, thorough, ids)
     special_section(rep, rng, thorough, ids)
     history_section(rep, rng, thorough)
+    parhist_section(rep, rng, thorough)
     recipe_section(rep, rng, thorough)
     return rep
 
@@ -1670,6 +1721,8 @@ def history_section(rep, rng, thorough):
 #
 # recipe ::= ("v", name) | ("c", number, kind) | ("p", name, value_at_build, value_at_call)
 #          | ("b", op, recipe, recipe) | ("u", fn, recipe)
+#          | ("q", name)                                   a Parameter with a set-history (value looked up at evaluation time)
+#          | ("r", kind, elems, aux, form, variant)        a vector / matrix reduction over element recipes (see _red_eval)
 # kind of a constant = how it is handed to the API: "raw" (a Python number next to an operator: _ensure_expr /
 # reflected operators), "const" (a Constant object), "arr" (vector route: a NumPy array operand).
 
@@ -1750,6 +1803,10 @@ def rec_eval(r, env):
         return (v if isinstance(v, int) and not isinstance(v, bool) else np.float64(v)), 0.0
     if k == "p":
         return np.float64(r[3]), 0.0
+    if k == "q":
+        return np.float64(env["par:" + r[1]]), 0.0  # a Parameter with a history: its CURRENT value (the caller's own bookkeeping)
+    if k == "r":
+        return _red_eval(r, env)
     if k == "u":
         a, ea = rec_eval(r[2], env)
         a = np.float64(a)
@@ -1813,6 +1870,87 @@ def rec_eval(r, env):
         return v, math.inf
 
 
+def _red_eval(r, env):
+    """(value, bound) of a reduction node ("r", kind, elems, aux, form, variant): the elements are recipes (Parameters,
+    constants, variable-free compounds, variables), evaluated first; the reduction itself is ONE NumPy call on the array of
+    element values — np.sum, np.dot, np.linalg.norm, v @ Q @ v, np.sum(A @ v) — never optyx code.
+      kind  aux                                       value
+      sum   None                                      Σ vᵢ            (also "msum": the elements laid out as a matrix)
+      lc    coefficient tuple c                       c · v
+      dot   (elems2, form2)                           v · w
+      l2 / l1  None                                   ‖v‖₂ / ‖v‖₁
+      qf    matrix rows Q                             vᵀ Q v
+      mvsum matrix rows A                             Σ (A v)"""
+    kind, elems, aux = r[1], r[2], r[3]
+    pairs = [rec_eval(el, env) for el in elems]
+    v = np.array([float(p[0]) for p in pairs], dtype=np.float64)
+    e = np.array([p[1] for p in pairs], dtype=np.float64)
+    n = len(v)
+    if not (np.all(np.isfinite(v)) and np.all(np.isfinite(e))):
+        return np.float64("nan"), math.inf
+    av = np.abs(v)
+    with np.errstate(all="ignore"):
+        if kind in ("sum", "msum"):
+            val, err = np.sum(v), float(e.sum()) + (n + 1) * _U * float(av.sum())
+        elif kind == "lc":
+            c = np.array([float(x) for x in aux], dtype=np.float64)
+            val = np.dot(c, v)
+            err = float(np.dot(np.abs(c), e)) + (n + 2) * _U * float(np.dot(np.abs(c), av))
+        elif kind == "dot":
+            pairs2 = [rec_eval(el, env) for el in aux[0]]
+            w = np.array([float(p[0]) for p in pairs2], dtype=np.float64)
+            ew = np.array([p[1] for p in pairs2], dtype=np.float64)
+            if not (np.all(np.isfinite(w)) and np.all(np.isfinite(ew))):
+                return np.float64("nan"), math.inf
+            val = np.dot(v, w)
+            err = float(np.dot(av, ew) + np.dot(np.abs(w), e)) + (n + 2) * _U * float(np.dot(av, np.abs(w)))
+        elif kind == "l2":
+            val = np.linalg.norm(v)
+            if float(val) == 0.0:
+                err = math.inf if float(e.sum()) > 0.0 else 0.0
+            else:
+                err = float(np.dot(av, e)) / float(val) + (n + 4) * _U * float(val)
+        elif kind == "l1":
+            val, err = np.sum(av), float(e.sum()) + (n + 1) * _U * float(av.sum())
+        elif kind == "qf":
+            Q = np.array([[float(x) for x in row] for row in aux], dtype=np.float64)
+            val = v @ Q @ v
+            aQ = np.abs(Q)
+            err = float(av @ aQ @ e + e @ aQ @ av) + (2 * n + 4) * _U * float(av @ aQ @ av)
+        elif kind == "mvsum":
+            A = np.array([[float(x) for x in row] for row in aux], dtype=np.float64)
+            val = np.sum(A @ v)
+            aA = np.abs(A)
+            err = float(np.sum(aA @ e)) + (n + A.shape[0] + 4) * _U * float(np.sum(aA @ av))
+        else:
+            raise KeyError(kind)
+    if not (math.isfinite(float(val)) and math.isfinite(err)):
+        return val, math.inf
+    return val, _fin(err)
+
+
+def _red_text(r):
+    kind, elems, aux = r[1], r[2], r[3]
+    vec = "[" + ", ".join(rec_text(el) for el in elems) + "]"
+    if kind == "sum":
+        return f"sum({vec})"
+    if kind == "msum":
+        return f"MatrixSum({vec} as {aux[0]}x{aux[1]})"
+    if kind == "lc":
+        return f"array({[float(x) for x in aux]}) @ {vec}"
+    if kind == "dot":
+        return f"dot({vec}, [" + ", ".join(rec_text(el) for el in aux[0]) + "])"
+    if kind == "l2":
+        return f"norm({vec})"
+    if kind == "l1":
+        return f"norm({vec}, 1)"
+    if kind == "qf":
+        return f"quadratic_form({vec}, {[[float(x) for x in row] for row in aux]})"
+    if kind == "mvsum":
+        return f"sum(array({[[float(x) for x in row] for row in aux]}) @ {vec})"
+    return f"{kind}({vec})"
+
+
 _PREC = {"+": 1, "-": 1, "*": 2, "/": 2, "**": 3}
 
 
@@ -1831,6 +1969,10 @@ def rec_text(r):
         return f"({s})" if (isinstance(v, (int, float)) and v < 0 and "(" not in s) else s
     if k == "p":
         return f"{r[1]}[={r[3]!r}, was {r[2]!r} when built]"
+    if k == "q":
+        return r[1]
+    if k == "r":
+        return _red_text(r)
     if k == "u":
         return ("-(" + rec_text(r[2]) + ")") if r[1] == "neg" else f"{r[1]}({rec_text(r[2])})"
     return "(" + rec_text(r[2]) + f" {r[1]} " + rec_text(r[3]) + ")"
@@ -1889,6 +2031,7 @@ class RecipeBuilder:
         self.node, self.share = node, share
         self.params = {}
         self.memo = {}
+        self.qpool = {}  # name -> Parameter object (scalar Parameter or VectorParameter element) of the ("q", name) leaves
 
     def param(self, r):
         from optyx import Parameter
@@ -1910,7 +2053,7 @@ class RecipeBuilder:
         from optyx.core.expressions import BinaryOp, Constant, UnaryOp, _ensure_expr
 
         key = None
-        if self.share and r[0] in ("b", "u"):
+        if self.share and r[0] in ("b", "u", "r"):
             key = repr(r)
             if key in self.memo:
                 return self.memo[key]
@@ -1921,6 +2064,10 @@ class RecipeBuilder:
             out = Constant(r[1]) if r[2] == "const" else r[1]
         elif k == "p":
             out = self.param(r)
+        elif k == "q":
+            out = self.qpool[r[1]]
+        elif k == "r":
+            out = self.reduction(r, leaves)
         elif k == "u":
             a = self.scalar(r[2], leaves)
             if self.node:
@@ -1936,6 +2083,76 @@ class RecipeBuilder:
         if key is not None:
             self.memo[key] = out
         return out
+
+    # ---- reductions over element recipes ("r" nodes)
+    def vec_of(self, elems, form, leaves):
+        """the vector operand of a reduction.  form "ve": VectorExpression([element, ...]) with every element built on the
+        scalar route (`VectorExpression(list(prices))`); "vv:<name>": the VectorVariable / view `leaves["vec:<name>"]`, whose
+        elements are the ("v", …) recipes; "vecop": the vector API applied to whole vectors when all elements have one shape
+        (`pvec * k`, `k - pvec`, `-pvec`, `pvec + cvec`, `pvec * uvec`) — otherwise element by element"""
+        from optyx.core.expressions import _ensure_expr
+        from optyx.core import vectors as V
+
+        if isinstance(form, str) and form.startswith("vv:"):
+            return leaves["vec:" + form[3:]]
+        if form == "vecop":
+            f0 = elems[0]
+            if f0[0] == "u" and all(el[0] == "u" and el[1] == "neg" for el in elems):
+                return -self.vec_of(tuple(el[2] for el in elems), "ve", leaves)
+            if f0[0] == "b" and all(el[0] == "b" and el[1] == f0[1] for el in elems):
+                op = f0[1]
+                ls, rs = tuple(el[2] for el in elems), tuple(el[3] for el in elems)
+                lconst = all(tuple(x) == tuple(ls[0]) and x[0] == "c" and x[2] == "raw" for x in ls)
+                rconst = all(tuple(x) == tuple(rs[0]) and x[0] == "c" and x[2] == "raw" for x in rs)
+                lvec = not any(x[0] == "c" for x in ls)
+                rvec = not any(x[0] == "c" for x in rs)
+                if rconst and lvec:
+                    return _py_op(op, self.vec_of(ls, "ve", leaves), rs[0][1])
+                if lconst and rvec and op != "**":
+                    return _py_op(op, ls[0][1], self.vec_of(rs, "ve", leaves))
+                if lvec and rvec and op in ("+", "-", "*"):
+                    return _py_op(op, self.vec_of(ls, "ve", leaves), self.vec_of(rs, "ve", leaves))
+        return V.VectorExpression([_ensure_expr(self.scalar(el, leaves)) for el in elems])
+
+    def reduction(self, r, leaves):
+        """the reduction node through the public API; `variant` picks the spelling (operator / method / helper / constructor)"""
+        from optyx.core.expressions import _ensure_expr
+        from optyx.core import vectors as V
+        from optyx.core import matrices as M
+
+        kind, elems, aux = r[1], r[2], r[3]
+        form = r[4] if len(r) > 4 else "ve"
+        variant = int(r[5]) if len(r) > 5 else 0
+        if kind == "msum":
+            rows, cols = int(aux[0]), int(aux[1])
+            ex = [_ensure_expr(self.scalar(el, leaves)) for el in elems]
+            mat = M.MatrixExpression([ex[i * cols:(i + 1) * cols] for i in range(rows)])
+            return mat.sum() if variant % 2 == 0 else M.MatrixSum(mat)
+        vec = self.vec_of(elems, form, leaves)
+        if kind == "sum":
+            if variant % 3 == 2 and isinstance(vec, V.VectorExpression):
+                return V.vector_sum(vec)  # the helper: a chain of scalar additions
+            if variant % 3 == 1 and isinstance(vec, V.VectorExpression):
+                return V.VectorExpressionSum(vec)
+            return vec.sum()
+        if kind == "lc":
+            c = np.array([float(x) for x in aux])
+            return [lambda: c @ vec, lambda: vec @ c, lambda: V.LinearCombination(c, vec), lambda: vec @ [float(x) for x in c]][variant % 4]()
+        if kind == "dot":
+            same_operand = repr(_tuplify(aux[0])) == repr(_tuplify(elems)) and aux[1] == form
+            other = vec if same_operand else self.vec_of(aux[0], aux[1], leaves)  # v·v: one operand OBJECT on both sides
+            return [lambda: vec.dot(other), lambda: vec @ other, lambda: V.DotProduct(vec, other)][variant % 3]()
+        if kind == "l2":
+            return V.norm(vec) if variant % 2 == 0 else V.L2Norm(vec)
+        if kind == "l1":
+            return V.norm(vec, 1) if variant % 2 == 0 else V.L1Norm(vec)
+        if kind == "qf":
+            Q = np.array([[float(x) for x in row] for row in aux])
+            return M.quadratic_form(vec, Q) if variant % 2 == 0 else M.QuadraticForm(vec, Q)
+        if kind == "mvsum":
+            A = np.array([[float(x) for x in row] for row in aux])
+            return (M.matmul(A, vec) if variant % 2 == 0 else M.MatrixVectorProduct(A, vec)).sum()
+        raise KeyError(kind)
 
     # ---- vector route: returns a vector-like object, or ("s", scalar operand)
     def vector(self, r, leaves, n):
@@ -2527,6 +2744,555 @@ def replay_recipe(f) -> bool:
     return not r
 
 
+# ----------------------------------------------------------------------------- Parameters INSIDE reductions × set histories
+#
+# Checklist 29.  Everywhere above a Parameter is a scalar LEAF of the tree (`p * x`, `(2 * p) * x`, `E ** p`).  The API also
+# lets Parameters (scalar Parameters, the elements of a VectorParameter) be ELEMENTS of a VectorExpression / MatrixExpression:
+# `w @ VectorExpression(list(prices))`, `VectorExpression(list(prices)).sum()`, `norm(pvec)`, `pvec.dot(pvec)`,
+# `quadratic_form(pvec, Q)`, `MatrixExpression([[…]]).sum()`, `(A @ pvec).sum()`.  Such a reduction reports NO variables, and
+# the Parameters are reachable only THROUGH the reduction node — every shortcut that asks "is this sub-tree constant?" by
+# looking at get_variables() or at the scalar operators only (compile-time folding, memoised values, hoisting) freezes them.
+# This family builds, per case,
+#   elements   Parameters in order / reversed / repeated, with a constant slot, variable-free compounds (2*p, p - q, -p, p*c,
+#              tanh(p)), whole-vector operators (pvec * k, k - pvec, -pvec, pvec + cvec), a variable in one slot
+#   reduction  every reduction node the API has for expression vectors / matrices, in every spelling (operator, method,
+#              helper, constructor), sizes 1 … 33
+#   wrapper    the reduction bare and inside variable-free scalar operations (1.1*R, R+1, sqrt(R*R+c), exp(-(R/100)), R*q,
+#              R - R2, nested), then
+#   combo      combined with variables (both operand positions, under functions, as element of a further vector node), or
+#              left variable-free as a whole
+#   history    compile / Parameter.set / VectorParameter.set / call sequences on ONE expression object without clearing the
+#              LRU cache: call before and after sets, set before the first compile and back, re-compile the same (e, V)
+#              (cache hit), compile for another variable list after a set, partial sets (one element; to 0, 1, sign flip),
+#              read-only queries in between — for the recursive and the explicit-stack builder
+# and judges ALL observables (array callable, dict wrapper, CompiledExpression.value, a callable compiled just now, tree
+# evaluation) against the NumPy value of the recipe at the CURRENT parameter values, kept in the harness's own bookkeeping
+# (never read back from the Parameter objects).
+
+_PH_VALS = [0.5, 1.0, 1.5, 2.0, 2.5, 3.0, 4.0, 0.25, 0.75, 0.125, -0.5, -1.5, -2.0, -3.0, 10.0, 20.0, 30.0, -10.0]
+_PH_KINDS = ["lc", "sum", "sum:chain", "dot", "dotself", "dotvar", "l2", "l1", "qf", "msum", "mvsum"]
+_PH_STYLES = ["vp", "vp", "vp-rev", "scalars", "mixed-const", "compound", "vecop", "vecop2", "with-var"]
+_PH_SIZES = [1, 2, 3, 3, 3, 4, 5, 8, 33]
+_PH_HISTORIES = ["compile-set-call", "set-compile-setback", "recompile-cached", "other-V-after-set", "partial-sets",
+                 "queries-interleaved"]
+
+
+def _ph_elems(rng, style, n, kc):
+    """(element recipes, form) of a length-n vector whose elements are (mostly) Parameters"""
+    P = [("q", f"price[{i}]") for i in range(n)]
+    Cc = [("q", f"cost[{i}]") for i in range(n)]
+    rate, fee = ("q", "rate"), ("q", "fee")
+    if style == "vp":
+        return tuple(P), "ve"
+    if style == "vp-cost":
+        return tuple(Cc), "ve"
+    if style == "vp-rev":
+        return tuple(reversed(P)), "ve"
+    if style == "scalars":  # scalar Parameter objects, the same object in several slots
+        return tuple([rate, fee, rate, P[0], fee][i % 5] for i in range(n)), "ve"
+    if style == "consts":
+        return tuple(("c", rng.choice([0.5, 2.0, -1.5, 1.0, 0.25, 3.0]), "const") for _ in range(n)), "ve"
+    if style == "mixed-const":
+        j = rng.randint(0, n - 1)
+        return tuple(("c", rng.choice([0.5, 2.0, -1.5, 1, 0]), "const") if (i == j and n > 1) else P[i] for i in range(n)), "ve"
+    if style == "compound":
+        forms = [lambda i: Bn("*", kc(2.0), P[i]), lambda i: Bn("-", P[i], rate), lambda i: Un("neg", P[i]), lambda i: Bn("*", P[i], Cc[i]),
+                 lambda i: Bn("/", P[i], kc(4.0)), lambda i: Un("tanh", P[i]), lambda i: Bn("+", Bn("*", rate, P[i]), fee),
+                 lambda i: Bn("**", P[i], kc(2))]
+        off = rng.randint(0, len(forms) - 1)
+        return tuple(forms[(i + off) % len(forms)](i) for i in range(n)), "ve"
+    if style == "vecop":  # one operator applied to the whole parameter vector
+        k = ("c", rng.choice([2.0, 0.5, -1.5, 3, 1.25]), "raw")
+        which = rng.choice(["*k", "k*", "+k", "k+", "-k", "k-", "/k", "neg", "**2"])
+        f = {"*k": lambda p: Bn("*", p, k), "k*": lambda p: Bn("*", k, p), "+k": lambda p: Bn("+", p, k), "k+": lambda p: Bn("+", k, p),
+             "-k": lambda p: Bn("-", p, k), "k-": lambda p: Bn("-", k, p), "/k": lambda p: Bn("/", p, k), "neg": lambda p: Un("neg", p),
+             "**2": lambda p: Bn("**", p, ("c", 2, "raw"))}[which]
+        return tuple(f(p) for p in P), "vecop"
+    if style == "vecop2":  # two parameter vectors combined element-wise by the vector API
+        op = rng.choice(["+", "-", "*"])
+        return tuple(Bn(op, P[i], Cc[i]) for i in range(n)), "vecop"
+    if style == "with-var":  # a decision variable in one slot: the reduction is not variable-free
+        j = rng.randint(0, n - 1)
+        slot = rng.choice([("v", "x"), Bn("*", P[j], ("v", "y")), Bn("+", ("v", "x"), Cc[j])])
+        return tuple(slot if i == j else P[i] for i in range(n)), "ve"
+    raise KeyError(style)
+
+
+def _ph_reduction(rng, kind, n, kc, style=None):
+    """a reduction node of the given kind over a parameter vector of length n"""
+    elems, form = _ph_elems(rng, style or rng.choice(_PH_STYLES), n, kc)
+    variant = rng.randint(0, 11)
+    coef = [0.5, 0.3, 0.2, 2.0, -1.0, 1.5, 0.0, 1.0, -0.25, 1.1]
+    if kind == "sum":
+        return ("r", "sum", elems, None, form, rng.choice([0, 1, 3, 4]))
+    if kind == "sum:chain":
+        return ("r", "sum", elems, None, form, 2)
+    if kind == "lc":
+        return ("r", "lc", elems, tuple(rng.choice(coef) for _ in range(n)), form, variant)
+    if kind == "dot":
+        other = _ph_elems(rng, rng.choice(["vp-cost", "scalars", "consts", "compound", "vp-rev"]), n, kc)
+        return ("r", "dot", elems, other, form, variant)
+    if kind == "dotself":
+        return ("r", "dot", elems, (elems, form), form, variant)
+    if kind == "dotvar":  # the other operand is a VectorVariable: p · u and u · p
+        uel = (tuple(("v", f"u[{i}]") for i in range(n)), "vv:u")
+        if rng.random() < 0.5:
+            return ("r", "dot", elems, uel, form, variant)
+        return ("r", "dot", uel[0], (elems, form), uel[1], variant)
+    if kind in ("l2", "l1"):
+        return ("r", kind, elems, None, form, variant)
+    if kind == "qf":
+        Q = tuple(tuple(rng.choice([0.0, 0.5, 1.0, -1.0, 2.0, 0.25, -0.5, 1.5]) for _ in range(n)) for _ in range(n))
+        return ("r", "qf", elems, Q, form, variant)
+    if kind == "msum":
+        rows = rng.choice([d for d in range(1, n + 1) if n % d == 0])
+        return ("r", "msum", elems, (rows, n // rows), "ve", variant)
+    if kind == "mvsum":
+        m = rng.choice([1, 2, 3])
+        A = tuple(tuple(rng.choice([0.0, 0.5, 1.0, -1.0, 2.0, 0.25, -0.5]) for _ in range(n)) for _ in range(m))
+        return ("r", "mvsum", elems, A, form, variant)
+    raise KeyError(kind)
+
+
+def _ph_wrappers():
+    """(name, f(R, R2, q, k) -> recipe): variable-free scalar operations around the reduction R (R2: a second reduction,
+    q: a scalar Parameter leaf, k: makes a constant operand)"""
+    return [
+        ("R", lambda R, R2, q, k: R),
+        ("1.1*R", lambda R, R2, q, k: Bn("*", k(1.1), R)),
+        ("R*0.5", lambda R, R2, q, k: Bn("*", R, k(0.5))),
+        ("R+1", lambda R, R2, q, k: Bn("+", R, k(1.0))),
+        ("1+R", lambda R, R2, q, k: Bn("+", k(1), R)),
+        ("1-R", lambda R, R2, q, k: Bn("-", k(1.0), R)),
+        ("R-2.5", lambda R, R2, q, k: Bn("-", R, k(2.5))),
+        ("R/100", lambda R, R2, q, k: Bn("/", R, k(100.0))),
+        ("100/(R*R+1)", lambda R, R2, q, k: Bn("/", k(100.0), Bn("+", Bn("*", R, R), k(1.0)))),
+        ("-R", lambda R, R2, q, k: Un("neg", R)),
+        ("R*R", lambda R, R2, q, k: Bn("*", R, R)),
+        ("R**2", lambda R, R2, q, k: Bn("**", R, k(2))),
+        ("sqrt(R*R+0.25)", lambda R, R2, q, k: Un("sqrt", Bn("+", Bn("*", R, R), k(0.25)))),
+        ("exp(-(R/100))", lambda R, R2, q, k: Un("exp", Un("neg", Bn("/", R, k(100.0))))),
+        ("tanh(R/8)", lambda R, R2, q, k: Un("tanh", Bn("/", R, k(8.0)))),
+        ("abs(R)", lambda R, R2, q, k: Un("abs", R)),
+        ("log(R*R+1)", lambda R, R2, q, k: Un("log", Bn("+", Bn("*", R, R), k(1.0)))),
+        ("sin(0.5*R)", lambda R, R2, q, k: Un("sin", Bn("*", k(0.5), R))),
+        ("2**tanh(R/8)", lambda R, R2, q, k: Bn("**", k(2.0), Un("tanh", Bn("/", R, k(8.0))))),
+        ("R*q", lambda R, R2, q, k: Bn("*", R, q)),
+        ("q*R", lambda R, R2, q, k: Bn("*", q, R)),
+        ("R+q", lambda R, R2, q, k: Bn("+", R, q)),
+        ("q-R", lambda R, R2, q, k: Bn("-", q, R)),
+        ("R/(q*q+1)", lambda R, R2, q, k: Bn("/", R, Bn("+", Bn("*", q, q), k(1.0)))),
+        ("R-R2", lambda R, R2, q, k: Bn("-", R, R2)),
+        ("R*R2", lambda R, R2, q, k: Bn("*", R, R2)),
+        ("(R+R2)/2", lambda R, R2, q, k: Bn("/", Bn("+", R, R2), k(2.0))),
+        ("R2/(R*R+1)", lambda R, R2, q, k: Bn("/", R2, Bn("+", Bn("*", R, R), k(1.0)))),
+        ("1.1*(R+1)/2", lambda R, R2, q, k: Bn("/", Bn("*", k(1.1), Bn("+", R, k(1.0))), k(2.0))),
+        ("sqrt(abs(R)+1)-1", lambda R, R2, q, k: Bn("-", Un("sqrt", Bn("+", Un("abs", R), k(1.0))), k(1.0))),
+        ("-(R/4)+0.5", lambda R, R2, q, k: Bn("+", Un("neg", Bn("/", R, k(4.0))), k(0.5))),
+    ]
+
+
+def _ph_combos():
+    """(name, f(W, W2, q, k) -> recipe): the variable-free term W combined with the variables x, y"""
+    x, y = X_, Y_
+    return [
+        ("(x-W)**2+y*q", lambda W, W2, q, k: Bn("+", Bn("**", Bn("-", x, W), k(2)), Bn("*", y, q))),
+        ("x*W+y/(W*W+1)", lambda W, W2, q, k: Bn("+", Bn("*", x, W), Bn("/", y, Bn("+", Bn("*", W, W), k(1.0))))),
+        ("W*x+y", lambda W, W2, q, k: Bn("+", Bn("*", W, x), y)),
+        ("x+W", lambda W, W2, q, k: Bn("+", x, W)),
+        ("W-x", lambda W, W2, q, k: Bn("-", W, x)),
+        ("W", lambda W, W2, q, k: W),
+        ("W+q", lambda W, W2, q, k: Bn("+", W, q)),
+        ("x*(W*y)", lambda W, W2, q, k: Bn("*", x, Bn("*", W, y))),
+        ("sin(x+W)*y", lambda W, W2, q, k: Bn("*", Un("sin", Bn("+", x, W)), y)),
+        ("x**2*W-y", lambda W, W2, q, k: Bn("-", Bn("*", Bn("**", x, k(2)), W), y)),
+        ("(x+y)/(W*W+0.5)", lambda W, W2, q, k: Bn("/", Bn("+", x, y), Bn("+", Bn("*", W, W), k(0.5)))),
+        ("W**2+x", lambda W, W2, q, k: Bn("+", Bn("**", W, k(2)), x)),
+        ("(x*x+1)**tanh(W/8)", lambda W, W2, q, k: Bn("**", Bn("+", Bn("*", x, x), k(1.0)), Un("tanh", Bn("/", W, k(8.0))))),
+        ("y*W2+W*x", lambda W, W2, q, k: Bn("+", Bn("*", y, W2), Bn("*", W, x))),
+        ("sum([x*W,y,W])", lambda W, W2, q, k: ("r", "sum", (Bn("*", x, W), y, W), None, "ve", 0)),
+        ("dot([x,y,x*y],[W,W2,c])", lambda W, W2, q, k: ("r", "dot", (x, y, Bn("*", x, y)), ((W, W2, ("c", 0.5, "const")), "ve"), "ve", 0)),
+        ("lc([W,x,y*W])", lambda W, W2, q, k: ("r", "lc", (W, x, Bn("*", y, W)), (2.0, -1.0, 0.5), "ve", 0)),
+        ("norm([x,W,y])", lambda W, W2, q, k: ("r", "l2", (x, W, y), None, "ve", 0)),
+        ("W*q-W2", lambda W, W2, q, k: Bn("-", Bn("*", W, q), W2)),
+    ]
+
+
+def rec_names(r, kind="v"):
+    """names of the ("v", …) / ("q", …) leaves of a recipe, in first-occurrence order"""
+    out, stack = [], [r]
+    while stack:
+        n = stack.pop()
+        if not isinstance(n, (tuple, list)) or not n:
+            continue
+        if n[0] == kind and len(n) >= 2 and isinstance(n[1], str):
+            if n[1] not in out:
+                out.append(n[1])
+            continue
+        if n[0] in ("v", "q", "c", "p"):
+            continue
+        if n[0] == "u":
+            stack.append(n[2])
+        elif n[0] == "b":
+            stack += [n[3], n[2]]
+        elif n[0] == "r":
+            if n[1] == "dot":
+                stack += list(reversed(n[3][0]))
+            stack += list(reversed(n[2]))
+    return out
+
+
+def parhist_case(rng, thorough, kind=None, wi=None, ci=None, hi=None):
+    """one case (plain data, JSON-able): recipe + parameter pool with the values at construction + variable lists +
+    points + history script"""
+    n = rng.choice(_PH_SIZES)
+    kinds_const = rng.choice(["raw", "const", "mixed"])
+
+    def k(v):
+        return ("c", v, kinds_const if kinds_const != "mixed" else rng.choice(["raw", "const"]))
+
+    kind = kind or rng.choice(_PH_KINDS)
+    wrappers, combos = _ph_wrappers(), _ph_combos()
+    wname, wf = wrappers[wi if wi is not None else rng.randint(0, len(wrappers) - 1)]
+    cname, cf = combos[ci if ci is not None else rng.randint(0, len(combos) - 1)]
+    fam = _PH_HISTORIES[hi if hi is not None else rng.randint(0, len(_PH_HISTORIES) - 1)]
+    # the reduction under test never has the "with-var" style when the point is the variable-free wrapper: keep both
+    R = _ph_reduction(rng, kind, n, k)
+    R2 = _ph_reduction(rng, rng.choice(_PH_KINDS[:5] + _PH_KINDS[6:]), n, k, style=rng.choice(["vp-cost", "scalars", "vp", "compound"]))
+    q = ("q", rng.choice(["rate", "fee"]))
+    W = wf(R, R2, q, k)
+    # the second variable-free term of the combos: another wrapper around the other reduction
+    W2 = wrappers[rng.randint(0, len(wrappers) - 1)][1](R2, R, ("q", "fee"), k)
+    recipe = cf(W, W2, q, k)
+    pool = {"scalars": {"rate": rng.choice(_PH_VALS), "fee": rng.choice(_PH_VALS)},
+            "vectors": {"price": [rng.choice(_PH_VALS) for _ in range(n)], "cost": [rng.choice(_PH_VALS) for _ in range(n)]}}
+    own = rec_names(recipe, "v")
+    extras = ["z", "t", "s"]
+    V1 = list(own) if own else ["z"]
+    V2 = list(V1)
+    rng.shuffle(V2)
+    if len(V2) < 2:
+        V2 = V2 + ["t"]
+    V3 = list(V1) + extras[: rng.randint(1, 2)] if own else ["t", "z", "s"]
+    rng.shuffle(V3)
+    names = sorted(set(V1) | set(V2) | set(V3))
+    pts = []
+    for _ in range(3 if thorough else 2):
+        pts.append({nm: rng.randint(-16, 16) / 8 + 1 / 16 for nm in names})
+    # ---- the history script
+    cur = {"rate": pool["scalars"]["rate"], "fee": pool["scalars"]["fee"]}
+    for vn, vals in pool["vectors"].items():
+        for i, v in enumerate(vals):
+            cur[f"{vn}[{i}]"] = v
+    initial = dict(cur)
+
+    def newval(old):
+        for _ in range(20):
+            v = rng.choice(_PH_VALS)
+            if v != old:
+                return v
+        return old + 1.0
+
+    def astype(assign):
+        if all(float(v) == int(v) for v in assign.values()) and rng.random() < 0.5:
+            return "int"
+        return rng.choice(["float", "float", "np"])
+
+    def s_full():
+        a = {nm: newval(v) for nm, v in cur.items()}
+        cur.update(a)
+        return ["set", rng.choice(["vector", "vector", "each"]), a, astype(a)]
+
+    def s_back():
+        a = dict(initial)
+        cur.update(a)
+        return ["set", rng.choice(["vector", "each"]), a, "float"]
+
+    def s_vec():
+        vn = rng.choice(["price", "cost"])
+        a = {f"{vn}[{i}]": newval(cur[f"{vn}[{i}]"]) for i in range(n)}
+        cur.update(a)
+        return ["set", "vector", a, astype(a)]
+
+    def s_one():
+        used = rec_names(recipe, "q") or list(cur)
+        nm = rng.choice(used)
+        a = {nm: newval(cur[nm])}
+        cur.update(a)
+        return ["set", "each", a, astype(a)]
+
+    def s_special():
+        used = rec_names(recipe, "q") or list(cur)
+        how = rng.choice(["zero", "one", "flip", "flip-all", "zero-all"])
+        if how == "zero":
+            a = {rng.choice(used): 0.0}
+        elif how == "one":
+            a = {rng.choice(used): 1.0}
+        elif how == "flip":
+            nm = rng.choice(used)
+            a = {nm: -cur[nm] if cur[nm] != 0.0 else 2.0}
+        elif how == "flip-all":
+            a = {nm: (-v if v != 0.0 else 2.0) for nm, v in cur.items()}
+        else:
+            a = {nm: 0.0 for nm in cur}
+        cur.update(a)
+        return ["set", rng.choice(["vector", "each"]), a, astype(a)]
+
+    def s_any():
+        return rng.choice([s_full, s_full, s_vec, s_one, s_special])()
+
+    if fam == "compile-set-call":
+        hist = [["compile", "a", V1], ["call"], s_full(), ["call"], s_any(), ["call"]]
+    elif fam == "set-compile-setback":
+        hist = [s_full(), ["compile", "a", V1], s_back(), ["call"], s_any(), ["call"]]
+    elif fam == "recompile-cached":
+        hist = [["compile", "a", V1], s_full(), ["fresh", V1], ["call"], s_any(), ["fresh", V1], ["call"]]
+    elif fam == "other-V-after-set":
+        hist = [["compile", "a", V1], s_full(), ["compile", "b", V2], s_full(), ["call"], ["compile", "c", V3], s_any(), ["call"]]
+    elif fam == "partial-sets":
+        hist = [["compile", "a", V2], s_one(), ["call"], s_special(), ["call"], s_vec(), ["call"], s_full(), ["call"]]
+    else:
+        hist = [["query"], ["compile", "a", V3], ["query"], s_full(), ["query"], ["call"], ["clear"], ["fresh", V3], s_any(), ["call"]]
+    return {"tag": f"parhist:{kind}:{wname}:{cname}:{fam}", "kind": kind, "wrapper": wname, "combo": cname, "family": fam, "n": n,
+            "recipe": recipe, "pool": pool, "points": pts, "history": hist, "thr": rng.choice([0, 3, 400, 400]),
+            "node": rng.random() < 0.25, "share": rng.random() < 0.7}
+
+
+def parhist_cases(rng, thorough):
+    """every reduction kind × every wrapper, every combo × every history family (the other dimensions drawn at random),
+    plus free random cases"""
+    out = []
+    nw, nc, nh = len(_ph_wrappers()), len(_ph_combos()), len(_PH_HISTORIES)
+    for _ in range(3 if thorough else 1):
+        for kind in _PH_KINDS:
+            for wi in range(nw):
+                out.append(parhist_case(rng, thorough, kind=kind, wi=wi))
+        for ci in range(nc):
+            for hi in range(nh):
+                out.append(parhist_case(rng, thorough, ci=ci, hi=hi))
+        # the plainest shapes: the bare reduction as the WHOLE expression (no variable at all) and the bare reduction next to
+        # a variable, every kind × every history family
+        for kind in _PH_KINDS:
+            for hi in range(nh):
+                out.append(parhist_case(rng, thorough, kind=kind, wi=0, ci=5, hi=hi))
+                out.append(parhist_case(rng, thorough, kind=kind, wi=0, ci=3, hi=hi))
+    for _ in range(600 if thorough else 60):
+        out.append(parhist_case(rng, thorough))
+    return out
+
+
+def parhist_run(case, stats=None):
+    """execute the history of one case on the real code; returns a list of failures (at most one)"""
+    import optyx.core.compiler as C
+    import optyx.core.autodiff as AD
+    from optyx import Parameter, Variable, VectorParameter, VectorVariable
+    from optyx.core.expressions import _ensure_expr
+
+    stats = stats if stats is not None else {}
+
+    def bump(k, n=1):
+        stats[k] = stats.get(k, 0) + n
+
+    recipe = _tuplify(case["recipe"])
+    n = int(case["n"])
+    cur, qpool, vecs = {}, {}, {}
+    for nm, v in case["pool"]["scalars"].items():
+        qpool[nm] = Parameter(nm, float(v))
+        cur[nm] = float(v)
+    for vn, vals in case["pool"]["vectors"].items():
+        vp = VectorParameter(vn, len(vals), [float(v) for v in vals])
+        vecs[vn] = vp
+        for i, p in enumerate(vp):
+            qpool[f"{vn}[{i}]"] = p
+            cur[f"{vn}[{i}]"] = float(vals[i])
+    leaves = {"x": Variable("x"), "y": Variable("y")}
+    u = VectorVariable("u", n)
+    leaves["vec:u"] = u
+    for el in u:
+        leaves[el.name] = el
+    bld = RecipeBuilder(node=bool(case.get("node")), share=bool(case.get("share", True)))
+    bld.qpool = qpool
+    with warnings.catch_warnings():
+        warnings.simplefilter("ignore")
+        try:
+            with np.errstate(all="ignore"):
+                e = _ensure_expr(bld.scalar(recipe, leaves))
+        except Exception as ex:  # noqa: BLE001
+            bump(f"skip:construction:{type(ex).__name__}")
+            return []
+    formula = rec_text(recipe)
+    thr = int(case.get("thr", 400))
+    slots = {}       # slot -> (V, fn, dict_fn, CompiledExpression, parameter values when compiled)
+    done = []        # the steps executed so far, as text
+
+    def vlist(names):
+        return [leaves[nm] if nm in leaves else Variable(nm) for nm in names]
+
+    def compile_all(names):
+        V = vlist(names)
+        old = C._RECURSION_THRESHOLD
+        try:
+            C._RECURSION_THRESHOLD = thr
+            with warnings.catch_warnings():
+                warnings.simplefilter("ignore")  # display only: the numeric behaviour of the code under test is untouched
+                return V, C.compile_expression(e, V), C.compile_to_dict_function(e, V), C.CompiledExpression(e, V), dict(cur)
+        finally:
+            C._RECURSION_THRESHOLD = old
+
+    def base(**kw):
+        return dict({"tag": case["tag"], "formula": formula, "threshold": thr, "params": dict(cur), "history_so_far": list(done),
+                     "param_history": True, "built": repr(e)[:300], "case": _parhist_json(case)}, **kw)
+
+    def judge(pt, observations):
+        """observations: [(observable name, V names, parameter values when compiled | None, thunk)]"""
+        env = {nm: v for nm, v in pt.items()}
+        env.update({"par:" + nm: v for nm, v in cur.items()})
+        with np.errstate(all="ignore"):
+            want, err = rec_eval(recipe, env)
+        want = float(want)
+        if not math.isfinite(want):
+            bump("skip:recipe-value-nan-or-inf")
+            return None
+        if not math.isfinite(err):
+            bump("skip:recipe-through-a-singular-or-non-finite-intermediate")
+            return None
+        tol = 1e-9 * abs(want) + 1000.0 * err + 1e-300
+        bump("judged")
+        if tol <= 1e-6 * abs(want) or want == 0.0:
+            bump("judged-sharp")
+        for nm, vnames, pcomp, thunk in observations:
+            got, errk = call(thunk)
+            if got is not None and abs(got - want) <= tol:
+                continue
+            return base(observable=nm, vars=list(vnames), point=dict(pt), got=got, want=want, tolerance=tol,
+                        params_when_compiled=pcomp,
+                        what=(f"{nm} raised {errk} where the formula has a finite value at the current parameter values" if got is None
+                              else f"{nm} differs from the NumPy value of the formula at the CURRENT parameter values "
+                                   f"(tolerance 1e-9·|value| + 1000·rounding bound)"))
+        return None
+
+    def observe(pt, only=None):
+        obs = [("e.evaluate(values)", sorted(pt), None, lambda: e.evaluate(dict(pt)))]
+        for slot, (V, fn, dfn, cexp, pcomp) in slots.items():
+            if only is not None and slot != only:
+                continue
+            vn = [v.name for v in V]
+            arr = np.array([pt[nm] for nm in vn], dtype=float)
+            full = {nm: pt[nm] for nm in vn}
+            obs.append((f"compile_expression(e,V)(x) [compiled at step '{slot}']", vn, pcomp, lambda fn=fn, arr=arr: fn(arr)))
+            obs.append((f"compile_to_dict_function(e,V)(values) [compiled at step '{slot}']", vn, pcomp, lambda dfn=dfn, full=full: dfn(dict(full))))
+            obs.append((f"CompiledExpression.value [compiled at step '{slot}']", vn, pcomp, lambda cexp=cexp, arr=arr: cexp.value(arr)))
+        return obs
+
+    points = [{k: float(v) for k, v in pt.items()} for pt in case["points"]]
+    C._compile_cached.cache_clear()
+    try:
+        for si, step in enumerate(case["history"]):
+            op = step[0]
+            if op in ("compile", "fresh"):
+                names = step[2] if op == "compile" else step[1]
+                slot = step[1] if op == "compile" else f"fresh@{si}"
+                done.append(f"{op} for V={list(names)} (parameters {_ph_short(cur)})")
+                try:
+                    slots[slot] = compile_all(names)
+                except Exception as ex:  # noqa: BLE001
+                    return [base(vars=list(names), what=f"compiling the expression raised {type(ex).__name__}")]
+                if op == "fresh":
+                    # a callable requested NOW (possibly served from the LRU cache) must see the current values
+                    for pt in points:
+                        f = judge(pt, observe(pt, only=slot)[1:])
+                        if f is not None:
+                            return [f]
+                    del slots[slot]
+            elif op == "set":
+                mode, assign, astype = step[1], {k: float(v) for k, v in step[2].items()}, step[3]
+                conv = {"int": lambda v: int(v), "np": lambda v: np.float64(v)}.get(astype, float)
+                rest = dict(assign)
+                if mode == "vector":
+                    for vn, vp in vecs.items():
+                        keys = [f"{vn}[{i}]" for i in range(len(vp))]
+                        if all(kk in rest for kk in keys):
+                            vals = [conv(rest.pop(kk)) for kk in keys]
+                            vp.set(np.array(vals) if astype == "np" else vals)
+                for nm, v in rest.items():
+                    qpool[nm].set(conv(v))
+                cur.update(assign)
+                done.append(f"set[{mode},{astype}] {_ph_short(assign)}")
+            elif op == "call":
+                done.append("call")
+                for pt in points:
+                    f = judge(pt, observe(pt))
+                    if f is not None:
+                        return [f]
+            elif op == "clear":
+                C._compile_cached.cache_clear()
+                done.append("cache_clear")
+            elif op == "query":
+                done.append("read-only queries")
+                for qf in (lambda: e.degree, lambda: e.get_variables(), lambda: repr(e), lambda: hash(e),
+                           lambda: AD.gradient(e, leaves["x"]), lambda: e.evaluate(dict(points[0]))):
+                    try:
+                        with warnings.catch_warnings(), np.errstate(all="ignore"):
+                            warnings.simplefilter("ignore")
+                            qf()
+                    except Exception:  # noqa: BLE001
+                        pass
+    finally:
+        C._compile_cached.cache_clear()
+    return []
+
+
+def _ph_short(d, limit=8):
+    items = list(d.items())
+    txt = ", ".join(f"{k}={v:g}" for k, v in items[:limit])
+    return "{" + txt + (", …" if len(items) > limit else "") + "}"
+
+
+def _parhist_json(case):
+    return {k: case[k] for k in ("tag", "kind", "wrapper", "combo", "family", "n", "recipe", "pool", "points", "history", "thr",
+                                 "node", "share") if k in case}
+
+
+def parhist_section(rep, rng, thorough):
+    stats = {}
+    n_fail = 0
+    found = []
+    for case in parhist_cases(rng, thorough):
+        for key in ("kind", "family"):
+            hk = f"parhist:{key}:{case[key]}"
+            rep.histogram[hk] = rep.histogram.get(hk, 0) + 1
+        before = stats.get("judged", 0)
+        fails = parhist_run(case, stats=stats)
+        if stats.get("judged", 0) > before and not fails:
+            rep.nontrivial.add(hash(("parhist", repr(case["recipe"]), repr(case["history"]))))
+        for f in fails:
+            n_fail += 1
+            found.append(f)
+    # the smallest failing case first (run.py reports the first violation): short vectors, short formulas
+    found.sort(key=lambda f: (int(f["case"]["n"]), len(f.get("formula", ""))))
+    rep.oracle_failures.extend(found[:20])
+    rep.evaluations += stats.get("judged", 0)
+    rep.histogram["parhist_points"] = stats.get("judged", 0)
+    rep.histogram["parhist_points_sharp"] = stats.get("judged-sharp", 0)
+    for k, v in stats.items():
+        if k.startswith("skip:"):
+            rep.skipped["parameters in reductions × histories: " + k[5:]] = v
+
+
+def replay_parhist(f) -> bool:
+    case = dict(f["case"])
+    print("formula:", rec_text(_tuplify(case["recipe"])))
+    for st in case["history"]:
+        print("  step:", str(st)[:200])
+    r = parhist_run(case)
+    for x in r:
+        print("parhist_run:", {k: x[k] for k in ("what", "observable", "got", "want", "tolerance", "point", "params",
+                                                 "params_when_compiled", "history_so_far") if k in x})
+    if not r:
+        print("parhist_run: all observables agree with the NumPy value of the formula at every step")
+    return not r
+
+
 # ----------------------------------------------------------------------------- search / replay
 
 
@@ -2561,6 +3327,86 @@ def check_point(e, V, pt, newp, thr):
             return f
         if not same(val, ref):
             return {"what": f"{nm} differs from the mathematical value", "got": val, "want": ref, "observable": nm}
+    return None
+
+
+def expr_params(e):
+    """the Parameter objects of an expression in first-visit order (explicit stack; through vector and matrix operands)"""
+    from optyx.core.parameters import Parameter
+
+    out, seen, stack = [], set(), [e]
+    while stack:
+        n = stack.pop()
+        if id(n) in seen:
+            continue
+        seen.add(id(n))
+        if isinstance(n, Parameter):
+            out.append(n)
+            continue
+        for attr in ("right", "left", "operand", "vector", "expression"):
+            sub = getattr(n, attr, None)
+            if sub is None:
+                continue
+            if hasattr(sub, "_expressions"):
+                stack += list(reversed(sub._expressions))
+                inner = getattr(sub, "vector", None)  # MatrixVectorProduct keeps its operand as well
+                if inner is not None and hasattr(inner, "_expressions"):
+                    stack += list(reversed(inner._expressions))
+            elif hasattr(sub, "evaluate") and not hasattr(sub, "_variables"):
+                stack.append(sub)
+        m = getattr(n, "matrix", None)
+        if m is not None and hasattr(m, "_expressions"):
+            stack += [x for row in reversed(m._expressions) for x in reversed(row)]
+    return out
+
+
+def check_point_sets(e, V, pt, thr, before, after):
+    """compile / Parameter.set / call on one expression: every Parameter gets its `before` value (by name), the three
+    compiled entry points are built, every Parameter gets its `after` value, and the observables are judged by the
+    reference interpreter at the values they have NOW.  None = holds / not judged, else a failure dict"""
+    import optyx.core.compiler as C
+
+    ps = expr_params(e)
+    if not ps:
+        return None
+    for p in ps:
+        p.set(float(before.get(p.name, p.value)))
+    old = C._RECURSION_THRESHOLD
+    try:
+        C._RECURSION_THRESHOLD = thr
+        C._compile_cached.cache_clear()
+        try:
+            fn, dfn, cexp = C.compile_expression(e, V), C.compile_to_dict_function(e, V), C.CompiledExpression(e, V)
+        except Exception:  # noqa: BLE001
+            return None  # judged by check_point
+        for p in ps:
+            p.set(float(after.get(p.name, p.value)))
+        try:
+            ref = float(oracle.prim(oracle.ref_eval(e, dict(pt))))
+        except (oracle.NotRegular, OverflowError, ZeroDivisionError, ValueError, KeyError):
+            return None
+        if not well_conditioned(e, pt):
+            return None
+        arr = np.array([pt[v.name] for v in V], dtype=float)
+        obs = {
+            "compile_expression(e,V)(x)": call(lambda: fn(arr)),
+            "e.evaluate(values)": call(lambda: e.evaluate(dict(pt))),
+            "compile_to_dict_function(e,V)(values)": call(lambda: dfn(dict(pt))),
+            "CompiledExpression.value": call(lambda: cexp.value(arr)),
+            "compile_expression(e,V)(x), compiled again after the set": call(lambda: C.compile_expression(e, V)(arr)),
+        }
+    finally:
+        C._RECURSION_THRESHOLD = old
+        C._compile_cached.cache_clear()
+    for nm, (val, err) in obs.items():
+        if val is None or not same(val, ref):
+            f = {"what": f"{nm}: " + (f"raised {err}" if val is None else "differs from the mathematical value") +
+                         " after Parameter.set between compilation and call", "got": val, "want": ref, "observable": nm,
+                 "set_history": True, "params_when_compiled": {k: float(v) for k, v in before.items()},
+                 "params": {k: float(v) for k, v in after.items()}}
+            if err == "int_negative_power":
+                f["kind"] = "int_negative_power"
+            return f
     return None
 
 
@@ -2600,6 +3446,18 @@ def search(ctx, rep):
         V = [byname.get(n, Variable(n)) for n in names]
         if any(n not in names for n in byname):
             continue
+        pnames = sorted({p.name for p in expr_params(e)})
+        if pnames:
+            # the mismatching case under compile / Parameter.set / call histories (a freshly read Parameter is 0.0:
+            # without this every Parameter of the case would be judged at 0 only)
+            for pt in probe_points(rng, names, 6):
+                for thr in (0, 400):
+                    before = {n: rng.choice([1.5, 0.5, 2.0, -0.5, 1.0, 0.0, 3.0]) for n in pnames}
+                    after = {n: rng.choice([v for v in (2.5, -1.5, 0.75, 4.0, 0.0, 1.0, -2.0) if v != before[n]]) for n in pnames}
+                    r = check_point_sets(e, V, pt, thr, before, after)
+                    if r is not None and r.get("kind") != "int_negative_power":
+                        r.update({"expr": sx, "vars": names, "point": pt, "threshold": thr})
+                        return r
         for pt in probe_points(rng, names, 24):
             for thr in (0, 400):
                 for chk, tagk in ((check_exact, "exact"), (check_loose, "loose"), (lambda *a: check_point(a[0], a[1], a[2], {}, a[3]), None)):
@@ -2612,7 +3470,15 @@ def search(ctx, rep):
                             r["judge"] = tagk
                         return r
                     break
-    # (2) the formula the user wrote vs what was built (construction-time rewrites), thorough sizes
+    # (2) Parameters inside vector / matrix reductions × compile / set / call histories (compile-time shortcuts), thorough sizes
+    found = []
+    for case in parhist_cases(rng, True):
+        found += parhist_run(case)
+        if len(found) >= 30:
+            break
+    if found:
+        return min(found, key=lambda f: (int(f["case"]["n"]), len(f.get("formula", ""))))
+    # (3) the formula the user wrote vs what was built (construction-time rewrites), thorough sizes
     for case in recipe_cases(rng, True):
         fails = [f for f in recipe_check(case, rng, True) if f.get("kind") != "int_negative_power"]
         if fails:
@@ -2652,6 +3518,8 @@ def replay(payload) -> bool:
     from optyx.core.parameters import Parameter
 
     f = payload["failure"]
+    if f.get("param_history"):
+        return replay_parhist(f)
     if f.get("recipe_oracle"):
         return replay_recipe(f)
     e = deser(f["expr"])
@@ -2661,6 +3529,11 @@ def replay(payload) -> bool:
         txt, _ = py_compile(e, V, int(f.get("threshold", 400)))
         print("compile_expression:", txt[:300])
         return not txt.startswith("raise:")
+    if f.get("set_history") and expr_params(e):
+        r = check_point_sets(e, V, {k: float(v) for k, v in f["point"].items()}, int(f.get("threshold", 400)),
+                             f["params_when_compiled"], f["params"])
+        print("check_point_sets:", r)
+        return r is None
     # parameters: restore the values of the failing run on the rebuilt objects
     stack = [e]
     seen = set()
